@@ -2,6 +2,7 @@
 // constructors (unit tree) and the string entry points (unit front) are proved to implement.  No executable function: the unit
 // holds only proof functions; the contracts they talk about (wf, parse_ok, preprocess_ok) are postconditions proved in those units.
 #![feature(allocator_api)]
+#![feature(pattern)]
 #![allow(unused_imports, dead_code, unused_variables, unused_mut, non_snake_case, unused_parens)]
 use vstd::prelude::*;
 use vstd::string::StringSliceAdditionalSpecFns;
@@ -18,6 +19,7 @@ verus! {
 
 pub uninterp spec fn prop_index(name: Seq<char>) -> Option<int>;
 //@include prelude/std_model.rs
+//@include prelude/weak_std.rs
 //@include spec/syntax.rs
 //@include prelude/str_model.rs
 //@include spec/grammar.rs
